@@ -12,7 +12,6 @@ import kern2
 from kern2 import Snap
 
 HALF = Fr(1, 2)
-DEGENERATE = [0]     # successful collapses leaving a zero-area triangle at the new vertex (reported as a note)
 
 
 # ---------------------------------------------------------------------------------------------
@@ -344,18 +343,9 @@ def judge(before, res, after, wfline, op):
         if 1 in signs and -1 in signs:
             items.append(("fan-orientation", "triangles around the resulting vertex have both orientations"))
         elif 0 in signs:
-            # `signum` of the post-check takes a flat triangle for a positive one.  A failure of the property when the fans of
-            # both end points were strictly oriented before the call; otherwise the input itself was degenerate (note only)
-            pre = set()
-            for d in before.linked:
-                if before.vid(d) in (va, vb):
-                    a2 = area2(tuple(before.org(x) for x in before.face(d)))
-                    pre.add(0 if a2 == 0 else (1 if a2 > 0 else -1))
-            if pre in ({1}, {-1}):
-                items.append(("fan-degenerate", "a triangle around the resulting vertex has zero area (the fans of both end points "
-                              "were strictly oriented)"))
-            else:
-                DEGENERATE[0] += 1
+            # /repo 94962f9 (former finding D15g): the post-check refuses a zero cross product, so a successful collapse never
+            # leaves a flat triangle at the resulting vertex, whatever the input looked like
+            items.append(("fan-orientation", "a triangle around the resulting vertex has zero area"))
     expect = +expect
     got = after.tri_multiset()
     if got != expect:
@@ -677,8 +667,8 @@ def pinch_checked_half_consistent(before, after, op, res):
     for d in after.linked:
         if after.vid(d) == vid and after.face(d):
             a2 = area2(tuple(after.org(x) for x in after.face(d)))
-            signs.add(1 if a2 >= 0 else -1)     # signum(+0.0) = 1 in the kernel's test
-    return len(signs) == 1
+            signs.add(0 if a2 == 0 else (1 if a2 > 0 else -1))     # the kernel's test refuses a zero cross product
+    return signs in ({1}, {-1})
 
 
 def window_signatures(before, res, after, op, items, wfline="wf true true true"):
@@ -694,11 +684,6 @@ def window_signatures(before, res, after, op, items, wfline="wf true true true")
             return {"swap-corner-averaged"}
         if ok and kind == "collapse":
             rest = set(tags)
-            if "fan-degenerate" in rest:
-                # D15g: the only orientation failure is a flat triangle (no triangle of the opposite sign: `fan-orientation`
-                # would be reported instead), on an input whose fans were strictly oriented (checked by `judge`)
-                sigs.add("collapse-accepts-flat-triangle")
-                rest.discard("fan-degenerate")
             if rest == {"anchor-face"} and d15a_pattern(before, after, op, items):
                 sigs.add("collapse-face-anchor-not-migrated")
                 rest = set()
